@@ -175,10 +175,10 @@ def check_rank(rows_all: List[Row], df, shift: int, cg, rank: int, classes: List
             require((int(got["kernel_dur_sum"][i]), int(got["first_kernel_start"][i]), int(got["last_kernel_end"][i]),
                      int(got["kernel_span"][i])) == (0, -1, -1, 0), "no_kernel_defaults", desc)
         else:
-            require(int(got["kernel_dur_sum"][i]) == ds, "kernel_dur_sum", desc)
-            require(int(got["first_kernel_start"][i]) == fs - shift, "first_kernel_start", desc)
-            require(int(got["last_kernel_end"][i]) == le - shift, "last_kernel_end", desc)
-            require(int(got["kernel_span"][i]) == le - fs, "kernel_span", desc)
+            require(float(got["kernel_dur_sum"][i]) == ds, "kernel_dur_sum", desc)
+            require(float(got["first_kernel_start"][i]) == fs - shift, "first_kernel_start", desc)
+            require(float(got["last_kernel_end"][i]) == le - shift, "last_kernel_end", desc)
+            require(float(got["kernel_span"][i]) == le - fs, "kernel_span", desc)
             if sum(1 for c in ch.get(i, []) if agg(c)[1] > 0) >= 2:
                 multi_child_kernels = True
     # ---- get_stack_of_node ----
@@ -224,7 +224,7 @@ def check(case: Dict[str, Any]) -> CaseInfo:
         from hta.common.trace_call_graph import CallGraph
 
         cg = hta_call("CallGraph", lambda: CallGraph(ta.t))
-        shift = int(ta.t.min_ts)
+        shift = ta.t.min_ts if case.get("unrounded") else int(ta.t.min_ts)
         for rd in case["ranks"]:
             df = ta.t.get_trace(rd["rank"])
             if check_rank(complete_rows(rd["events"]), df, shift, cg, rd["rank"], classes):
@@ -240,7 +240,7 @@ def check(case: Dict[str, Any]) -> CaseInfo:
 @st.composite
 def c13_case(draw):
     autograd = draw(st.sampled_from([True, True, False]))
-    o = Opts(fractional_stamps=True, python_frames=True, early_kernels=True, steps=[0, 1, 2, 3] if not autograd else [1, 2, 3, 0], w_launch=7, w_sync=2, w_op=6, w_rt=1, max_top=4, max_depth=4,
+    o = Opts(fractional_stamps=True, unrounded=True, python_frames=True, early_kernels=True, steps=[0, 1, 2, 3] if not autograd else [1, 2, 3, 0], w_launch=7, w_sync=2, w_op=6, w_rt=1, max_top=4, max_depth=4,
              streams=2, second_thread=True, autograd=autograd, device_sync=False, allow_zero_call=False, backward_ann=autograd,
              force_second_thread=autograd, cuda_events=True)
     if autograd and draw(st.sampled_from([True, False, False])):
